@@ -69,8 +69,10 @@ type Limits struct {
 }
 
 type Worker struct {
-	m   *Machine
-	lim Limits
+	m          *Machine
+	lim        Limits
+	wantSample bool
+	sample     *PathSample
 }
 
 func signedModel(model map[string]uint64) map[string]int64 {
@@ -169,6 +171,14 @@ func (w *Worker) runPath(spec *DriverSpec, prefix []int) (abort *pathAbort) {
 	if spec.Ref != nil && spec.Impl != nil {
 		m.assertSameLogs(0, 1, -1)
 	}
+	w.sample = nil
+	if w.wantSample {
+		// reachability witness + concrete sample: a model of the final path condition
+		r, model := m.model(m.pathVars)
+		if r == Sat {
+			w.sample = &PathSample{len(m.decided), signedModel(model), logsOut(m.renderLogs(model))}
+		}
+	}
 	return nil
 }
 
@@ -209,6 +219,7 @@ func (w *Worker) runDriver(spec *DriverSpec) (res DriverResult) {
 		}
 		prefix := work[len(work)-1]
 		work = work[:len(work)-1]
+		w.wantSample = len(res.Samples) < w.lim.Samples
 		abort := w.runPath(spec, prefix)
 		res.Paths++
 		res.Steps += m.steps
@@ -250,12 +261,8 @@ func (w *Worker) runDriver(spec *DriverSpec) (res DriverResult) {
 			}
 		}
 		shapes[sh] = true
-		if len(res.Samples) < w.lim.Samples {
-			// reachability witness + concrete sample: a model of the final path condition
-			r, model := m.sol.ModelWith(m.pathVars)
-			if r == Sat {
-				res.Samples = append(res.Samples, PathSample{len(m.decided), signedModel(model), logsOut(m.renderLogs(model))})
-			}
+		if w.sample != nil {
+			res.Samples = append(res.Samples, *w.sample)
 		}
 		if w.m.actor != 0 || len(m.tracked) > 0 {
 			res.FootprintBad = append(res.FootprintBad, m.footprintConflicts()...)
